@@ -1,0 +1,11 @@
+//! Read-only facts about a constructed solver that the solve-loop model needs.
+use crate::solver::core::cones::Cone;
+use crate::solver::DefaultSolver;
+
+/// (cones.is_symmetric(), cones.allows_primal_dual_scaling())
+pub fn cone_flags(solver: &DefaultSolver<f64>) -> (bool, bool) {
+    (
+        solver.cones.is_symmetric(),
+        solver.cones.allows_primal_dual_scaling(),
+    )
+}
